@@ -311,6 +311,38 @@ func (n *Node) WaitQuiesced() {
 	}
 }
 
+// Restart2Abandon = kill -9 at a quiescent point and restart: the listeners
+// go away, the open replica object is abandoned without Close (Dirty /
+// Rebuilding stay persisted), a new server object serves the directory.
+func (n *Node) Restart2Abandon() error {
+	n.Stop()
+	n.mu.Lock()
+	end := n.handleEnd
+	n.mu.Unlock()
+	if end != nil {
+		select {
+		case <-end:
+		case <-time.After(5 * time.Second):
+		}
+	}
+	n.mu.Lock()
+	n.stopped = false
+	n.next = map[string][]Outcome{}
+	n.restFail = map[string]int{}
+	n.pingFail = false
+	n.handleEnd = nil
+	n.mu.Unlock()
+	n.S = replica.NewServer(n.IP+":9502", n.Dir, 512, "")
+	var err error
+	for i := 0; i < 50; i++ {
+		if err = n.listen(); err == nil {
+			return nil
+		}
+		time.Sleep(20 * time.Millisecond)
+	}
+	return err
+}
+
 func (n *Node) SetNext(kind string, o ...Outcome) {
 	n.mu.Lock()
 	n.next[kind] = append(n.next[kind], o...)
